@@ -444,7 +444,7 @@ func C02(c *core.Ctx) {
 		// SendInterest forwards its own nexthop/inFace parameters unchanged
 		for _, ci := range core.FindCallsDeep(sendI, idProcOutInterest) {
 			_, args := core.CallArgs(ci.Common())
-			ok := len(args) == 4 && args[2] == ssa.Value(sendI.Params[3]) && args[3] == ssa.Value(sendI.Params[4]) && args[0] == ssa.Value(sendI.Params[1])
+			ok := len(args) == 4 && core.Same(args[2], sendI.Params[3]) && core.Same(args[3], sendI.Params[4]) && core.Same(args[0], sendI.Params[1])
 			c.Decide(ok, "R2.3", "SendInterest-passthrough", c.Pos(ci), "SendInterest passes packet, nexthop and inFace through unchanged", "SendInterest does not pass its packet/nexthop/inFace parameters through unchanged")
 		}
 		allowed := map[string]bool{}
@@ -452,7 +452,7 @@ func C02(c *core.Ctx) {
 			allowed["fw/fw."+t.Obj().Name()+".AfterReceiveInterest"] = true
 		}
 		for _, ci := range p.Callers(sendI) {
-			n := core.FuncName(ci.Parent())
+			n := core.FuncName(core.RootOf(ci.Parent())) // a private helper counts as its caller
 			c.Decide(allowed[n], "R2.3", "SendInterest-caller:"+n, c.Pos(ci), "called from a strategy's AfterReceiveInterest", "SendInterest called from "+n+", which is not a Strategy.AfterReceiveInterest implementation (no FIB next hops in scope)")
 		}
 	}
@@ -559,7 +559,7 @@ func C02(c *core.Ctx) {
 		nexthopsParam := ssa.Value(fn.Params[4])
 		pktParam := ssa.Value(fn.Params[1])
 		pitParam := ssa.Value(fn.Params[2])
-		sl := &core.Slicer{P: p}
+		sl := &core.Slicer{P: p, Root: fn}
 		for i, ci := range sends {
 			_, args := core.CallArgs(ci.Common())
 			// provenance of the nexthop id
@@ -571,7 +571,7 @@ func C02(c *core.Ctx) {
 				}
 			}
 			c.Decide(ok, "R2.3", fmt.Sprintf("nexthop-source:%s#%d", tn, i), c.Pos(ci), "face id = nexthops[i].Nexthop of the FIB next hops passed in", "Interest sent to a face id that is not the Nexthop of a FIB next-hop entry passed to the strategy: "+core.LeafSet(leaves))
-			c.Decide(args[0] == pktParam && args[1] == pitParam && args[3] == ssa.Value(fn.Params[3]), "R2.3", fmt.Sprintf("send-args:%s#%d", tn, i), c.Pos(ci), "packet, pitEntry and inFace passed through", "SendInterest is not given the strategy's own packet/pitEntry/inFace")
+			c.Decide(core.Same(args[0], pktParam) && core.Same(args[1], pitParam) && core.Same(args[3], fn.Params[3]), "R2.3", fmt.Sprintf("send-args:%s#%d", tn, i), c.Pos(ci), "packet, pitEntry and inFace passed through", "SendInterest is not given the strategy's own packet/pitEntry/inFace")
 		}
 		// suppression gate
 		isOutRecs := func(v ssa.Value) bool {
@@ -583,7 +583,7 @@ func C02(c *core.Ctx) {
 				return false
 			}
 			r, _ := core.CallArgs(&cl.Call)
-			return r == pitParam
+			return core.Same(r, pitParam)
 		}
 		isOutRec := func(v ssa.Value) bool { return rangeComponent(v, 2, isOutRecs) }
 		hasMore := &core.Atom{Name: "more-out-records", Match: func(cond ssa.Value) (int, int) {
@@ -607,7 +607,7 @@ func C02(c *core.Ctx) {
 					return false
 				}
 				root, path := core.FieldPath(u.X)
-				return root == pktParam && strings.Join(path, ".") == "L3.Interest.NonceV"
+				return core.Same(root, pktParam) && strings.Join(path, ".") == "L3.Interest.NonceV"
 			}
 			if (isRecNonce(x) && isIntNonce(y)) || (isRecNonce(y) && isIntNonce(x)) {
 				return core.Iff(op == token.NEQ)
@@ -678,7 +678,7 @@ func C02(c *core.Ctx) {
 					return 0, 0
 				}}
 				okStop := false
-				for _, f := range core.EdgeFacts(fn, sentAtom) {
+				for _, f := range core.EdgeFacts(ci.Parent(), sentAtom) {
 					if f.Holds {
 						okStop = true
 						for _, other := range sends {
